@@ -1,0 +1,17 @@
+//go:build !verif
+
+// Package verifhook provides instrumentation points for the external
+// verification harness. Without the "verif" build tag every function
+// in this package is an empty function.
+package verifhook
+
+import "context"
+
+// Point marks a named point in a goroutine where the harness may inject
+// a delay, a yield or a callback. No-op without the verif build tag.
+func Point(context.Context, string) {}
+
+// Catch is meant to be deferred as the first statement of a long-lived goroutine.
+// No-op without the verif build tag: it does not call recover,
+// so panics propagate exactly as they would without it.
+func Catch(context.Context, string) {}
